@@ -158,6 +158,52 @@ def run(payload):
             fails.append({"id": "caller's_bc_dictionary_modified_by_an_earlier_request", "keys_afterwards": sorted(bc_shared), "max_dev": float(np.max(np.abs(fresh - after)))})
     except Exception as e:
         fails.append({"id": "history_error", "where": "shared bc dict", "error": f"{type(e).__name__}: {e}"})
+    # ---- a solver object that has been used for one simulation is used for another one: same result as a new solver
+    from pde import Controller, DiffusionPDE
+    from pde.solvers import AdamsBashforthSolver, CrankNicolsonSolver, ExplicitSolver, ImplicitSolver, ScipySolver
+    gs = UnitGrid([8])
+    first_state = ScalarField(gs, 10 * np.cos(np.arange(8.0)))
+    second_state = ScalarField(gs, np.sin(np.arange(8.0)) ** 2)
+    makers = [("euler", lambda eq, b: ExplicitSolver(eq, scheme="euler", backend=b)), ("rk", lambda eq, b: ExplicitSolver(eq, scheme="rk", backend=b)),
+              ("euler-adaptive", lambda eq, b: ExplicitSolver(eq, scheme="euler", adaptive=True, backend=b)),
+              ("rk-adaptive", lambda eq, b: ExplicitSolver(eq, scheme="rk", adaptive=True, tolerance=1e-5, backend=b)),
+              ("implicit", lambda eq, b: ImplicitSolver(eq, backend=b)), ("crank-nicolson", lambda eq, b: CrankNicolsonSolver(eq, backend=b)),
+              ("adams-bashforth", lambda eq, b: AdamsBashforthSolver(eq, backend=b)), ("scipy", lambda eq, b: ScipySolver(eq, backend=b))]
+    for name, mk in makers:
+        for backend in (("numpy", "numba") if name in ("euler-adaptive", "rk-adaptive") else ("numpy",)):
+            for dt in ((None,) if name == "scipy" else (None, 1e-3)):
+                cases += 1
+                try:
+                    kw = {} if dt is None else {"dt": dt}
+                    eq = DiffusionPDE(0.7)
+                    used = mk(eq, backend)
+                    Controller(used, t_range=0.7, tracker=None).run(first_state, **kw)
+                    got = Controller(used, t_range=0.25, tracker=None).run(second_state, **kw).data
+                    want = Controller(mk(DiffusionPDE(0.7), backend), t_range=0.25, tracker=None).run(second_state, **kw).data
+                    if not np.array_equal(got, want):
+                        fails.append({"id": "second_run_of_a_solver_object_differs_from_a_new_solver", "solver": name, "backend": backend, "dt": dt, "max_dev": float(np.max(np.abs(got - want)))})
+                except Exception as e:
+                    fails.append({"id": "history_error", "where": f"reused solver {name}", "error": f"{type(e).__name__}: {e}"})
+    # ---- a conditions object is changed through its public interface between two requests for the same operator
+    gm = UnitGrid([6])
+    xm = np.arange(6.0) ** 2
+    for change in ("value_setter", "replace_side", "replace_axis"):
+        cases += 1
+        try:
+            bcs = gm.get_boundary_conditions({"x-": {"value": 1.0}, "x+": {"value": 1.0}})
+            gm.make_operator("laplace", bcs, backend="numba")(xm)
+            if change == "value_setter":
+                bcs[0].high.value = 2.0
+            elif change == "replace_side":
+                bcs["x+"] = {"value": 2.0}
+            else:
+                bcs["x"] = ({"value": 1.0}, {"value": 2.0})
+            got = gm.make_operator("laplace", bcs, backend="numba")(xm)
+            want = (np.concatenate([[2 * 1.0 - xm[0]], xm, [2 * 2.0 - xm[-1]]])[2:] - 2 * xm + np.concatenate([[2 * 1.0 - xm[0]], xm])[:-1])
+            if not np.allclose(got, want, rtol=1e-12):
+                fails.append({"id": "operator_compiled_for_the_earlier_conditions_reused", "change": change, "max_dev": float(np.max(np.abs(got - want)))})
+        except Exception as e:
+            fails.append({"id": "history_error", "where": f"mutated conditions ({change})", "error": f"{type(e).__name__}: {e}"})
     # ---- one field, requests that differ in a single numeric argument (small integers and their negatives)
     g = UnitGrid([4])
     for a, b in ((-1, -2), (-2, -1), (0, -1), (1, 2), (-1.0, -2.0), (2, -2)):
